@@ -185,7 +185,13 @@ Record mgr := { m_next : N; m_taken : list N; m_store : store }.
 
 Inductive mop :=
 | MNew                                       (* create a data instance *)
-| MOp (i : N) (o : iop).                     (* an operation on an existing instance *)
+| MOp (i : N) (o : iop)                      (* an operation on an existing instance *)
+(* a restart (loadMetadata): the persisted counter is kept; m.iids is rebuilt from the instances
+   the loaded repos still list — [live], some of the ids handed out so far.  An instance whose
+   deletion had saved the repo metadata but not yet removed its key-values (repoT.deleteData is
+   interrupted between r.save() and storage.DeleteDataInstance) is not in [live] while its keys
+   are still in the store. *)
+| MRestart (live : list N).
 
 (* an operation is only routed to an instance that was created before *)
 Definition mgr_step (m : mgr) (o : mop) : option mgr :=
@@ -199,7 +205,15 @@ Definition mgr_step (m : mgr) (o : mop) : option mgr :=
     if existsb (N.eqb i) (m_taken m)
     then Some {| m_next := m_next m; m_taken := m_taken m; m_store := apply_iop i op (m_store m) |}
     else None
+  | MRestart live =>
+    if forallb (fun i => existsb (N.eqb i) (m_taken m)) live
+    then Some {| m_next := m_next m; m_taken := live; m_store := m_store m |}
+    else None
   end.
+
+(* loadMetadata as seeded change C06-r2m1 had it: the counter recomputed from the loaded instances *)
+Definition restart_recomputed (m : mgr) (live : list N) : mgr :=
+  {| m_next := fold_left (fun a i => N.max a (i + 1)) live 1; m_taken := live; m_store := m_store m |}.
 
 Fixpoint mgr_run (m : mgr) (ops : list mop) : option mgr :=
   match ops with
